@@ -1,0 +1,8 @@
+//go:build verif
+
+// Verification hook (build tag "verif"): exported aliases of the checksum helpers.
+package layer
+
+func VerifIpv4csum(b []byte, acc uint32) uint16 { return ipv4csum(b, acc) }
+func VerifUdp4csum(hlen int, b []byte) uint16   { return udp4csum(hlen, b) }
+func VerifSetV4Checksum(b []byte) error         { return setV4Checksum(b) }
